@@ -49,7 +49,7 @@ def buffer_clauses(ctx, scheduled_only=False):
 
 
 def declare_buffer(P, concurrent, ops, opts, name="B", kinds=None, optmask=None, tasks=None):
-    """ops: string of 'u'/'l' (unload/load, in declaration order).
+    """ops: string of 'u'/'l' (unload/load, in declaration order; 'U'/'L': by the same task as the previous access).
     opts: subset of {'initial','final','lower','upper'}."""
     kw = {}
     vals = {"initial": None, "final": None, "lower": None, "upper": None}
@@ -70,7 +70,10 @@ def declare_buffer(P, concurrent, ops, opts, name="B", kinds=None, optmask=None,
     accesses = []
     tis = tasks or []
     for i, op in enumerate(ops):
-        if tasks is None:
+        if op in "UL":
+            ti = tis[-1]  # capital letter: a second access by the task of the previous access (borrow and return)
+            op = op.lower()
+        elif tasks is None:
             kind = (kinds or ["fixed"] * len(ops))[i]
             ti = make_task(P, f"{name}T{i}", kind, optional=bool(optmask and optmask[i]))
             tis.append(ti)
@@ -124,7 +127,12 @@ def make_shape(concurrent, ops, opts, kinds=None, two_buffers=False, horizon=Fal
 def _tie_admitted(ctx, path):
     """A concurrent buffer may be accessed by two tasks at the same instant: the constraint system
     must admit a schedule with a tie (existential query; also the reachability twin of the shape)."""
-    a0, a1 = ctx.accesses[0][0], ctx.accesses[1][0]
+    # two accesses by different tasks (the start and the end of one task of positive length never coincide)
+    pairs = [(x[0], y[0]) for x, y in itertools.combinations(ctx.accesses, 2) if not x[2].eq(y[2]) or z3.is_true(x[2])]
+    pairs = [(x, y) for x, y in pairs if not any(x.eq(t.s) and y.eq(t.e) for t in ctx.tis)]
+    if not pairs:
+        return {"status": "unsat", "queries": 0, "note": "a single task: no tie to admit"}
+    a0, a1 = pairs[0]
     base = [formula.to_z3(x) for x in list(path.assume) + list(path.pc) + list(ctx.extra_assume)]
     v, m, _ = formula.solve(base + list(ctx.phi) + [a0 == a1], 60000, want_model=False)
     if v == "sat":
@@ -150,6 +158,10 @@ def shapes(tier):
         out.append(make_shape(conc, "ul", {"initial", "final"}, two_buffers=True))
         out.append(make_shape(conc, "ull", {"initial", "upper"}, two_buffers=True))
         out.append(make_shape(conc, "ul", {"initial", "final"}, horizon=True))
+        # a task that takes from the buffer when it starts and gives back when it completes
+        out.append(make_shape(conc, "uL", {"initial"}))
+        out.append(make_shape(conc, "uLl", {"initial", "lower", "upper"}))
+        out.append(make_shape(conc, "luL", {"initial", "final"}))
     return out
 
 
